@@ -68,7 +68,7 @@ PROPS["C01"] = dict(
     technique="stateful property-based testing over a fault-injecting storage/lock simulator with an independent RFC 6962 model",
     units=[
         sim("^TestVerifC01History$", 300, 1000, files=["sim*.go", "c01*.go", "c03_crash.go"]),
-        sim("^TestVerifC01FaultSweep$", 4, 10, qs=2, files=["sim*.go", "c01*.go", "c03_crash.go"]),
+        sim("^TestVerifC01FaultSweep$", 4, 5, qs=2, files=["sim*.go", "c01*.go", "c03_crash.go"]),
     ],
 )
 
@@ -84,9 +84,9 @@ PROPS["C03"] = dict(
                  "the cache database of a crashed process is rolled back to the crash instant"],
     technique="exhaustive crash-point enumeration over generated rounds on a fault-injecting simulator, independent RFC 6962 audit as oracle",
     units=[
-        sim("^TestVerifC03CrashSweep$", 3, 8, qs=4, files=["sim*.go", "c03*.go"]),
-        sim("^TestVerifC03FatSweep$", 1, 2, qs=1, ts=8, files=["sim*.go", "c03*.go"]),
-        sim("^TestVerifC03RealSweep$", 1, 2, qs=1, ts=8, files=["sim*.go", "c03*.go"]),
+        sim("^TestVerifC03CrashSweep$", 3, 2, qs=4, files=["sim*.go", "c03*.go"]),
+        sim("^TestVerifC03FatSweep$", 1, 1, qs=1, ts=8, files=["sim*.go", "c03*.go"]),
+        sim("^TestVerifC03RealSweep$", 1, 1, qs=1, ts=8, files=["sim*.go", "c03*.go"]),
     ],
 )
 
